@@ -399,6 +399,7 @@ class QuotientFilter:
         if idx == -1:
             return
 
+        self._elements_added -= 1
         next_idx = (idx + 1) & self.__mod_size
 
         # track if this is the only element in this run...
